@@ -33,6 +33,8 @@ def groupCalls (toks : List String) : List CallObs × List String :=
     else if t.startsWith "W" then (done, { cur with written := (unhex (t.drop 1).toString).getD [] }, tail)
     else if t.startsWith "F" then (done, { cur with flushes := (t.drop 1).toString.toNat?.getD 0 }, tail)
     else if t.startsWith "Q" then acc          -- service requests: compared with the model, not judged here
+    else if t.startsWith "g" ∨ t.startsWith "s" then acc          -- register writes of the firmware / status snapshots: judged by judgeStatus
+    else if t.startsWith "T" then acc          -- direct line parse: "the terminating NUL is still there", compared with the model
     else if t.startsWith "R" then (done ++ [{ cur with result := t == "R1" }], {}, tail)
     else match cur.msgs.reverse with
       | [] => (done, { cur with pre := cur.pre ++ [t] }, tail)
